@@ -94,6 +94,9 @@ func runC03(r *Run) {
 		{`[0, 0.0000000005]`, false}, {`(1.0000000001 - 1) * 1000000000000`, false}, {`["a": 0.5, "b": 0.5000000002]`, false}, {`string(2.0000000004) + "/" + string(2)`, false},
 		{`1 > 2 || (0 + 3e-10) * 1e10 > 1`, false}, {`if(x < 1, 2.5000000001, 2.5) * 4`, false}, {`max(0, 1e-300) * 1e300`, false}, {`[1, 1.0000000001, 1]`, false}, {`(x - x) + 1e-10 * 1e10 + 0`, false},
 		{`0.30000000000000004 - 0.3`, false}, {`[0.1 + 0.2, 0.3, 0.30000000000000004]`, false}, {`{a: 1, b: 1.0000000002}.b * 1e10`, false}, {`"a" + "a" + string(1) + string(1.0000000001)`, false},
+		{`y - floor(y)`, false}, {`abs(y) + y`, false}, {`round(y) + y`, false}, {`[y, ceil(y), y]`, false}, {`abs(o.p - 10) + o.p`, false}, {`ceil(y) - y + floor(y)`, false},
+		{`lazyif(b, tr(1) + lazyif(b, tr(2), tr(3)), tr(4))`, true}, {`lazyif(b, [tr(1), lazyif(b, tr(2), tr(9)), tr(3)], [])`, true}, {`both(b, f == both(b, f))`, true},
+		{`lazyif(b, inc(lazyif(f, 1, 2)) + lazyif(b, 3, 4), 0) * 2`, true}, {`tr(1) + lazyif(b, tr(2) + lazyif(b, tr(3) + lazyif(b, tr(4), 0), 0), 0)`, true},
 		{`1e-10 == 0`, false}, {`2 ^ 0.5`, false}, {`round(-2.5)`, false}, {`t0 - t1`, false}, {`t0 == strtotime("2020-01-02 03:04:05")`, false}, {`'2020-01-02 03:04:05' == t0`, false},
 	}
 	for _, c := range corpus {
@@ -129,7 +132,8 @@ func runC03(r *Run) {
 		for _, tpl := range []string{"%s && false", "%s && true", "%s || true", "%s || false", "false && %s", "true || %s", "if(%s, true, true)", "if(%s, false, false)", "if(%s, 1, 1)",
 			"[tr(1), if(%s, false, false), tr(3)]", "!(%s)", "!(%s) && false", "(%s) == true", "if(true, %s, false)", "not(%s) or true",
 			"if(!!(%s), tr(1), tr(2))", "!!(%s) && tr(5) > 0", "!!(%s) || tr(5) > 0", "!!!(%s) ? tr(1) : tr(2)", "if(!(!(%s)), tr(1), tr(2))", "if(!(%s), tr(1), tr(2))", "!!!!(%s) && trb(b)",
-			"if(!!(%s), 1, boom(2))", "!(%s) || !!(%s)", "!(!(%s) && !(%s))"} {
+			"if(!!(%s), 1, boom(2))", "!(%s) || !!(%s)", "!(!(%s) && !(%s))",
+			"!(%s || !(%s))", "!(%s && !(%s))", "!if(%s, b, !b)", "!if(%s, !b, !f)", "if(!(%s || !b), tr(1), tr(2))", "[!(%s || !b), b] == [f, b]", "!(!(%s) || !(%s)) && !(b && !f)"} {
 			n := strings.Count(tpl, "%s")
 			args := make([]interface{}, n)
 			for i := range args {
